@@ -422,7 +422,7 @@ ATOM_FEATURES = ["plain", "alt-lo-hi", "alt-hi-lo", "alt-tie", "alt3-lo-hi-mid",
                  "clash-next-residue", "clash-chain-down", "clash-chain-up"]
 NULL_FEATURES = ["occ-absent", "occ-absent-repeated", "occ-absent-clash"]
 LAYOUTS = ["one", "one-num3", "two-shared-far", "two-shared-near", "two-shared-occ", "two-disjoint-far",
-           "two-disjoint-near", "three-shared", "two-renumbered", "three-unordered", "two-descending"]
+           "two-disjoint-near", "three-shared", "two-renumbered", "three-unordered", "two-descending", "two-interleaved"]
 
 
 def _add(p, q):
@@ -588,6 +588,15 @@ def build_table(rng, layout, feats, *, chains=1, icn="?", ocn="?"):
         return _shift(base, 3, (0, 0, 0)) + _shift(base, 1, _FAR) + _shift(base, 2, (-_FAR[0], _FAR[1], -_FAR[2]))
     if layout == "two-descending":      # 2, 1
         return _shift(base, 2, (0, 0, 0)) + _shift(base, 1, _FAR)
+    if layout == "two-interleaved":
+        # the rows of the two models alternate residue by residue (an atom_site table written residue-wise, model
+        # inside): only mmCIF can carry this - a PDB file keeps each model between MODEL and ENDMDL
+        m1, m2 = _shift(base, 1, (0, 0, 0)), _shift(base, 2, _FAR)
+        b1, b2 = residue_blocks(m1), residue_blocks(m2)
+        out = []
+        for (_, x), (_, y) in zip(b1, b2):
+            out += x + y
+        return out
     # disjoint identities: the second model lives in another chain
     def disjoint(lines):
         # every chain of the first model gets its own new name (two chains must not merge into one)
@@ -673,6 +682,13 @@ def c08_cases(tables, colshuffle_every=5):
 
 
 def pdb_representable(lines):
+    seen, prev = set(), None
+    for ln in lines:        # a PDB file keeps each model in one piece
+        if ln["m"] != prev:
+            if ln["m"] in seen:
+                return False
+            seen.add(ln["m"])
+            prev = ln["m"]
     for ln in lines:
         if len(ln["ch"]) != 1 or len(ln["rn"]) > 3 or len(ln["an"]) > 4 or not (-999 <= ln["num"] <= 9999) \
                 or len(ln["ic"]) > 1 or len(ln["alt"]) > 1 or ln["occ"] < 0 \
